@@ -122,27 +122,30 @@ pub fn run_schedule(text: &str, calls: &[Vec<Value>], sched: &[usize], step_time
     (results, deadlock, yields)
 }
 
-fn emit_results(text_v: &Value, calls: &[Vec<Value>], results: Vec<(usize, usize, Value)>, deadlock: bool, mode: &str, nyield: usize, em: &mut Emitter) {
+fn emit_results(case: &Value, calls: &[Vec<Value>], results: Vec<(usize, usize, Value)>, deadlock: bool, mode: &str, nyield: usize, em: &mut Emitter) {
+    let empty = json!([]);
+    let text_v = case.get("text").unwrap_or(&empty);
+    let rep = crate::c15::rep_arg(case);
     let total: usize = calls.iter().map(|c| c.len()).sum();
     let g = |c: &Value, k: &str| c.get(k).cloned().unwrap_or(json!(0));
     for (t, j, out) in &results {
         let c = &calls[*t][*j];
         em.emit(c["op"].as_str().unwrap(),
-                json!({"text": text_v, "thr": t, "mode": mode, "i": g(c, "i"), "line": g(c, "line"), "c": g(c, "c"), "n": g(c, "n")}), out.clone());
+                json!({"text": text_v, "rep": rep, "thr": t, "mode": mode, "i": g(c, "i"), "line": g(c, "line"), "c": g(c, "c"), "n": g(c, "n")}), out.clone());
     }
-    em.emit("end", json!({"text": text_v, "mode": mode, "i": 0, "line": 0, "c": 0, "n": 0}),
+    em.emit("end", json!({"text": text_v, "rep": rep, "mode": mode, "i": 0, "line": 0, "c": 0, "n": 0}),
             json!({"k": if deadlock || results.len() != total { "deadlock" } else { "ok" }, "answered": results.len(), "expected": total, "yields": nyield}));
 }
 
 pub fn run(case: &Value, em: &mut Emitter) {
-    let text = text_of(&case["text"]);
+    let text = crate::c15::case_text(case);
     let calls: Vec<Vec<Value>> = case["calls"].as_array().unwrap().iter().map(|c| c.as_array().unwrap().clone()).collect();
     match case["op"].as_str().unwrap() {
         "conc" => {
             // TLC thread ids are 1-based
             let sched: Vec<usize> = case["sched"].as_array().unwrap().iter().map(|t| t.as_u64().unwrap() as usize - 1).collect();
             let (results, deadlock, yields) = run_schedule(&text, &calls, &sched, Duration::from_millis(10));
-            emit_results(&case["text"], &calls, results, deadlock, "replay", yields.len(), em);
+            emit_results(case, &calls, results, deadlock, "replay", yields.len(), em);
         }
         "stress" => {
             // free-running real threads, no scheduler
@@ -155,13 +158,24 @@ pub fn run(case: &Value, em: &mut Emitter) {
             }
             let mut results = vec![];
             for h in hs { if let Ok(r) = h.join() { results.extend(r); } }
-            emit_results(&case["text"], &calls, results, false, "stress", 0, em);
+            emit_results(case, &calls, results, false, "stress", 0, em);
         }
         _ => panic!("bad C16 case"),
     }
 }
 
 pub fn gen(rng: &mut Rng, size: usize) -> Value {
+    if rng.chance(1, 12) {
+        // free-running threads on a large text: indexing takes long enough for the threads to overlap
+        let n = *rng.pick(&[3000i64, 40000, 300001]);
+        let nthr = 3 + rng.below(2) as usize;
+        let calls: Vec<Vec<Value>> = (0..nthr).map(|t| match t % 3 {
+            0 => vec![json!({"op": "line_count"}), json!({"op": "get_line", "i": n})],
+            1 => vec![json!({"op": "get_line", "i": n + 5}), json!({"op": "line_count"})],
+            _ => vec![json!({"op": "get_line", "i": n - 1}), json!({"op": "get_line", "i": 0})],
+        }).collect();
+        return json!({"op": "stress", "rep": {"unit": [97], "sep": [10], "n": n}, "calls": calls});
+    }
     let nthr = 2 + rng.below(3) as usize;
     let n = rng.below((size * 6) as u64 + 1) as usize;
     let text = crate::c15::gen_text(rng, n);
